@@ -195,18 +195,31 @@ func (r *Rig) Decode(s *State) *View {
 
 	// bank: balances (prefix 0x02 | addr | denom -> Coin) and supply, read with the bank keeper on a read context
 	ctx := r.ReadCtx(s)
-	r.bk.IterateAllBalances(ctx, func(a sdk.AccAddress, c sdk.Coin) bool {
-		if c.Denom != denom {
-			v.OtherDenoms = append(v.OtherDenoms, c.Denom)
-			return false
+	// Balances are read by exact key for every address of the universe and the module accounts; whatever else the
+	// bank store holds (coins sent to an address outside the universe) is summed under the pseudo-account "unknown".
+	known := new(big.Int)
+	for _, a := range balanceUniverse() {
+		c := r.bk.GetBalance(ctx, a, denom)
+		if c.Amount.IsZero() {
+			continue
 		}
-		k := hexs(a)
-		if v.Bal[k] == nil {
-			v.Bal[k] = new(big.Int)
+		v.Bal[hexs(a)] = c.Amount.BigInt()
+		known.Add(known, c.Amount.BigInt())
+	}
+	total := new(big.Int)
+	for _, kv := range s.Stores[stBank] {
+		if len(kv.K) > 0 && kv.K[0] == banktypes.BalancesPrefix[0] {
+			c := coinOf(kv.V)
+			if c.Denom == denom {
+				total.Add(total, c.Amount.BigInt())
+			} else {
+				v.OtherDenoms = append(v.OtherDenoms, c.Denom)
+			}
 		}
-		v.Bal[k].Add(v.Bal[k], c.Amount.BigInt())
-		return false
-	})
+	}
+	if rest := new(big.Int).Sub(total, known); rest.Sign() != 0 {
+		v.Bal[unknownAcc] = rest
+	}
 	v.Supply = r.bk.GetSupply(ctx).GetTotal().AmountOf(denom).BigInt()
 	v.Params = r.sk.GetParams(ctx)
 	return v
@@ -263,4 +276,13 @@ func bytesVal(raw []byte) []byte {
 	return b.Value
 }
 
-var _ = banktypes.ModuleName
+
+const unknownAcc = "FFFF"
+
+func balanceUniverse() []sdk.AccAddress {
+	out := []sdk.AccAddress{sdk.AccAddress(reqAcc), sdk.AccAddress(depAcc), sdk.AccAddress(feeColl)}
+	for _, a := range universe() {
+		out = append(out, sdk.AccAddress(a))
+	}
+	return out
+}
